@@ -721,6 +721,16 @@ func (w *Writer) batchMessages(messages []Message, assignments map[topicPartitio
 		}
 	}
 
+	if w.closed {
+		// Close ran after this call passed enter(): it will not see the partition
+		// writers created above, so flush and stop them here, otherwise their
+		// goroutines never exit and Close waits on the group forever.
+		for key, writer := range w.writers {
+			writer.close()
+			delete(w.writers, key)
+		}
+	}
+
 	return batches
 }
 
